@@ -61,7 +61,8 @@ def run(ctx):
         #    operation "block" of the CsEnv/CsScript schedules and the directed schedule fastsync-too-few-precommits);
         #    the recorded trace is validated by TLC against CsContract: a Finalize needs +2/3 precommits for that block
         from props import cscommon
-        sched = [d for d in cscommon.directed(ctx) if any(st.get("op") == "block" for st in d["steps"])]
+        sched = [d for d in cscommon.directed(ctx)
+                 if any(st.get("op") == "block" for st in d["steps"]) or d.get("replaceval") is not None]
         walks = [b for b in cscommon.env_behaviours(ctx, ctx.pick(40, 200), max_crash=1, max_ops=14, seed_off=500)
                  if any(st.get("op") == "block" for st in b["steps"])]
         frecs = cscommon.run_nodes(ctx, sched + walks[:ctx.pick(12, 80)], {"finalize-without-quorum", "finalized-twice"},
